@@ -18,7 +18,9 @@ PID = 'C07'
 
 NAMES = ['x', 'y', 'z', 'p', 'q', 'xy', 'pq', 'a-b', 'a-b-c', 'n_1.v', 'if', 'in', 'end', 'call']     # hyphens and dots are legal in names of all syntaxes
 OLDELSE = ['x', 'p', 'xy', 'pq', 'y']
-EXPRS = ['p', 'p+1', 'q', 'not p', 'o.a', 'p > 3', 'f()', 'y()', 'x', "q+q", 'nope']
+EXPRS = ['p', 'p+1', 'q', 'not p', 'o.a', 'p > 3', 'f()', 'y()', 'x', "q+q", 'nope',
+         # a closing parenthesis inside the quoted expression, followed by what could be a format or block suffix
+         '_.str(p).zfill(4)', '_.str(p)[0]', '(p)or(q)', '_.len(q)+(p)*2', '(q)[:1]']
 SAFE_TEXT = ['a', ' b ', 'line\n', '\n', ' \n', 'Hello, world.', 'x=1;', 't(1)', '', '', ' ', '[k]', '\ttab', 'é!']
 # literal text that looks like the beginning of a tag in one of the syntaxes but is a tag in none of them
 NEAR_TEXT = ['&dtml-lang=', ' &dtml.x ', 'a&b', '&dt', '<b>', '</b>', '<!-- c -->', '<d', '5% x', '&amp;', '&dtml', '<dtml', '&dtml-',
